@@ -51,7 +51,8 @@ class SimDatagramNet:
         self.sent = 0
         self.delivered = 0
         self.on_send = None          # fn(src, dst, data) -> data | None (None = swallowed); wire monitor / corruption
-        self.on_deliver = None       # fn(src, dst, data, endpoint) -> bool handled (True = harness delivered itself)
+        self.on_deliver = None       # fn(src, dst, data, endpoint) -> None | [(data, tag), ...] queued instead (corruption stage)
+        self.on_receive = None       # fn(endpoint, src, data, tag) -> bool handled (judge delivers itself)
         self.escapes = []            # (vtime, dst, exc type, src) exceptions that escaped datagram_received
         self._link_rng = {}
         loop.create_datagram_endpoint = self.create_datagram_endpoint
@@ -109,6 +110,9 @@ class SimDatagramNet:
             self.loop.call_later(lat + (hi - lo + 0.001) * r.random(), self._deliver, src, dst, data)
 
     def _deliver(self, src, dst, data):
+        """The datagram reaches the destination host: it is queued on the socket.  asyncio's datagram
+        transport hands ONE datagram to the protocol per loop iteration (_read_ready does a single
+        recvfrom), so callbacks scheduled by one datagram_received run before the next one is seen."""
         self.in_flight -= 1
         if dst in self.dead or src in self.dead:
             self.run.faults['dgram_to_dead'] += 1
@@ -119,8 +123,31 @@ class SimDatagramNet:
         ep = self.endpoints.get(dst)
         if ep is None or ep._closing:
             return
+        items = None
+        if self.on_deliver is not None:
+            items = self.on_deliver(src, dst, data, ep)
+        if items is None:
+            items = [(data, None)]
+        for d, tag in items:
+            self.enqueue(ep, src, d, tag)
+
+    def enqueue(self, ep, src, data, tag=None):
+        inbox = ep.__dict__.setdefault('inbox', collections.deque())
+        inbox.append((src, data, tag))
+        if not ep.__dict__.get('reader_scheduled'):
+            ep.reader_scheduled = True
+            self.loop.call_soon(self._read_ready, ep)
+
+    def _read_ready(self, ep):
+        ep.reader_scheduled = False
+        if ep._closing or not ep.inbox:
+            return
+        src, data, tag = ep.inbox.popleft()
+        if ep.inbox:
+            ep.reader_scheduled = True
+            self.loop.call_soon(self._read_ready, ep)
         self.delivered += 1
-        if self.on_deliver is not None and self.on_deliver(src, dst, data, ep):
+        if self.on_receive is not None and self.on_receive(ep, src, data, tag):
             return
         self.deliver_guarded(ep, data, src)
 
